@@ -66,8 +66,8 @@ def run(cx):
         for s in soa:
             ok = bool(re.search(r'^Journal::insert_record\(.*,phi\(.*InMemoryZoneHandler::increment_soa_serial\(\^arg1\.in_memory\).*\),', s.term)) and 'RecordType::SOA' in s.term
             cx.check('C14.P2', ok, u.path, s.key(), 'soa-row=(new serial, apex SOA record)', s.term[:220], s.loc)
-            cx.guard('C14.P2', [s], {'updated': r'^var\(updated\)$', 'auto-increment': r'^\^arg3$'}, fn=u)
-        ok_u = cx.returns(u, r'^Result::Ok\(var\(updated\)\)$')
+            cx.guard('C14.P2', [s], {'updated': r'^var\(\w+\)$', 'auto-increment': r'^\^arg3$'}, fn=u)
+        ok_u = cx.returns(u, r'^Result::Ok\(var\(\w+\)\)$')
         cx.guard('C14.P2', ok_u, {'no-journal-attached': r'^!ok\(.*Mutex::lock\(\^arg1\.journal\).*\)$|^!ok\(Option::as_ref\('}, expect=1, fn=u)
         # ------------------------------------------------------------ T1 agreement with pre_scan
         p = cx.fn('C14.T1', S + 'pre_scan::{closure#0}')
